@@ -2,7 +2,7 @@
 whatever subset of uploads fails, and whatever the error type, every failed object is returned as failed, the destination stays
 closed after every upload, and the result is truthful (C04 / C11).
 Bound: 2-3 directories (<= 3 files, one shared), 1-2 failing objects, error kinds {EIO at put_file, FileNotFoundError because the
-source object vanished after the status query}, with/without a destination index; n transfers (seeded)."""
+source object vanished after the status query, corrupt source object under verify=True}, with/without a destination index; n transfers (seeded)."""
 import logging; logging.disable(logging.CRITICAL)
 import json, os, random, sys, tempfile
 from contextlib import closing
@@ -57,7 +57,7 @@ def main(n, seed):
                 trees.append(obj)
             ids = {t.hash_info for t in trees} | {hi for t in trees for _, _, hi in t}
             files = sorted(h.value for h in ids if not h.isdir)
-            kind = rnd.choice(["eio", "vanish"])
+            kind = rnd.choice(["eio", "vanish", "corrupt"])
             victims = set(rnd.sample(files, rnd.randint(1, 2)))
             state.update(fail=victims if kind == "eio" else set(), remote=remote, trees=trees, unclosed=None)
 
@@ -67,15 +67,20 @@ def main(n, seed):
                         pth = cache.oid_to_path(o)
                         if os.path.exists(pth):
                             os.chmod(pth, 0o644); os.unlink(pth)
+                if kind == "corrupt":  # bit rot in the source: the transfer runs with verify=True and must not deliver / vouch for it
+                    for o in victims:
+                        pth = cache.oid_to_path(o)
+                        if os.path.exists(pth):
+                            os.chmod(pth, 0o644); open(pth, "wb").write(b"rotten " + o.encode())
             use_index = rnd.random() < 0.5
             distinct.add((len(trees), kind, tuple(sorted(victims)), use_index))
             problem = None
             try:
                 if use_index:
                     with closing(ObjectDBIndex(os.path.join(tmp, "idx"), "r")) as index:
-                        res = transfer(cache, remote, ids, validate_status=hook, dest_index=index)
+                        res = transfer(cache, remote, ids, validate_status=hook, dest_index=index, verify=(kind == "corrupt"))
                 else:
-                    res = transfer(cache, remote, ids, validate_status=hook)
+                    res = transfer(cache, remote, ids, validate_status=hook, verify=(kind == "corrupt"))
                 present = set(remote.all())
                 if state["unclosed"]:
                     problem = f"after an upload the destination held directory {state['unclosed'][0][:8]} without its file {state['unclosed'][1][:8]}"
@@ -93,7 +98,7 @@ def main(n, seed):
             if problem:
                 fails.append({"fault": kind, "victims": sorted(victims), "dest_index": use_index, "problem": problem})
     return {"evaluations": n, "distinct_nontrivial": len(distinct), "failures": fails[:3], "n_failures": len(fails),
-            "bound": "2-3 directories sharing a file, 1-2 failing uploads, fault kinds {EIO, source vanished}, with/without index"}
+            "bound": "2-3 directories sharing a file, 1-2 failing uploads, fault kinds {EIO, source vanished, source corrupt under verify}, with/without index"}
 
 
 if __name__ == "__main__":
